@@ -96,13 +96,14 @@ pub fn gen_spec(rng: &mut Rng, with_overrides: bool) -> (CmdSpec, BTreeMap<Strin
             if rng.chance(1, 8) {
                 a.required_unless_any = pick_some(rng, &ids, &me, 2);
             }
-            if rng.chance(1, 10) {
+            if rng.chance(1, 10) || (!a.required_unless_any.is_empty() && rng.chance(1, 3)) {
                 a.required_unless_all = pick_some(rng, &ids, &me, 2);
             }
             if rng.chance(1, 8) {
                 a.required_if_eq_any = pick_some(rng, &arg_ids, &me, 2).into_iter().map(|x| (x, if rng.coin() { "v1".into() } else { "true".into() })).collect();
             }
-            if rng.chance(1, 10) {
+            // both sibling rules on one argument: either may fire on its own
+            if rng.chance(1, 10) || (!a.required_if_eq_any.is_empty() && rng.chance(1, 3)) {
                 a.required_if_eq_all = pick_some(rng, &arg_ids, &me, 2).into_iter().map(|x| (x, if rng.coin() { "v1".into() } else { "true".into() })).collect();
             }
         }
